@@ -15,6 +15,7 @@ import (
 	"context"
 	"encoding/json"
 	"fmt"
+	"strings"
 	"testing"
 	"time"
 
@@ -217,6 +218,28 @@ func runC06(c c06Case) (*Violation, string) {
 				return violf("spurious-cancel", "subscription %s (not cancelled) has a done handler context after its values were delivered: %v", s.tok, err), ""
 			}
 			s.cancel()
+		}
+	}
+	// a call cancelled while its handler was running, and whose handler finished its work regardless (it was released
+	// just now), still gets its own answer over WebSocket: cancellation tells the handler, it does not detach the caller
+	if c.Transport == "ws" {
+		for _, s := range calls {
+			if s.Kind != "call" || (s.Cancel != "running" && s.Cancel != "race") || rig.W.Started(s.tok) == 0 {
+				continue
+			}
+			select {
+			case <-s.p.Done:
+			case <-time.After(5 * time.Second):
+				return violf("cancelled-call-hangs", "call %s was cancelled while running; its handler has finished since, but the call did not return within 5s", s.tok), ""
+			}
+			if s.p.Err != nil && strings.Contains(s.p.Err.Error(), "id didn't match") {
+				return violf("cancelled-call-wrong-answer", "call %s was cancelled while running (%s) and its handler then returned its result; the caller got %v", s.tok, s.Cancel, s.p.Err), ""
+			}
+			if s.p.Err == nil {
+				if v := s.p.CheckOwn(); v != nil {
+					return v, ""
+				}
+			}
 		}
 	}
 	select {
